@@ -5,7 +5,7 @@ CONSTANTS MaxLen, MaxDel, Alpha
 
 Pat(l, k) == [q \in 1..l |-> (k * (q + k)) % Alpha]          \* two different fixed contents: k = 1, 3
 Batch(n, l) == IF n = 1 THEN <<Pat(l, 1)>> ELSE <<Pat(l, 1), Pat(l, 3)>>
-Call(op, x, rows, left) == [op |-> op, x |-> x, rows |-> rows, left |-> left]
+Call(op, x, rows, left) == [op |-> op, x |-> x, rows |-> rows, left |-> left, A |-> Alpha]
 Subsets(S, k) == {{}} \cup UNION { kSubset(j, S) : j \in 1..(IF Cardinality(S) < k THEN Cardinality(S) ELSE k) }
 \* a deterministic listing of a set of rows (the implementation must not depend on the order; the driver also permutes)
 ToRows(S) == SetToSeq(S)
@@ -20,15 +20,19 @@ IsCall(c) ==
             /\ c = Call("deletion", Batch(n, l), ToRows({ <<0, p>> : p \in d1 } \cup { <<1, p>> : p \in d2 }), left)
     \/ \E l \in 2..MaxLen, left \in BOOLEAN : \E bad \in {<<2, 0>>, <<0, l>>} :         \* cannot be honoured
             c = Call("deletion", Batch(2, l), <<bad>>, left)
+    \/ \E l \in 3..MaxLen, left \in BOOLEAN :          \* a position named twice is still one deletion (merged variant tables)
+         \E d1 \in Subsets(0..(l - 1), 2) \ {{}}, d2 \in Subsets(0..(l - 1), 1), dup \in 0..(l - 1) :
+            /\ dup \in d1
+            /\ c = Call("deletion", Batch(2, l), ToRows({ <<0, p>> : p \in d1 } \cup { <<1, p>> : p \in d2 }) \o << <<0, dup>> >>, left)
     \/ \E n \in 1..2, l \in 1..(MaxLen - 1), left \in BOOLEAN :
          \E r \in Subsets((0..(n - 1)) \X (0..l) \X (0..1), 2) :
             c = Call("insertion", Batch(n, l), ToRows({ <<t[1], t[2], (t[3] + 2) % Alpha>> : t \in r }), left)
-    \/ \E l \in 1..(MaxLen - 1), left \in BOOLEAN : \E bad \in {<<2, 0, 1>>, <<0, l + 1, 1>>} :
+    \/ \E l \in 1..(MaxLen - 1), left \in BOOLEAN : \E bad \in {<<2, 0, 1>>, <<0, l + 1, 1>>, <<0, 0, Alpha>>} :
             c = Call("insertion", Batch(2, l), <<bad>>, left)
     \/ \E n \in 1..2, l \in 1..(MaxLen - 1) :
          \E r \in Subsets((0..(n - 1)) \X (0..(l - 1)) \X (0..(Alpha - 1)), 2) :
             c = Call("substitution", Batch(n, l), ToRows(r), FALSE)
-    \/ \E l \in 1..(MaxLen - 1) : \E bad \in {<<2, 0, 1>>, <<0, l, 1>>} :
+    \/ \E l \in 1..(MaxLen - 1) : \E bad \in {<<2, 0, 1>>, <<0, l, 1>>, <<0, 0, Alpha>>, <<1, l - 1, Alpha + 1>>} :     \* incl. a character beyond the alphabet
             c = Call("substitution", Batch(2, l), <<bad>>, FALSE)
 
 Init == pc = "call" /\ IsCall(call) /\ exp = Outcome("none", <<>>, <<>>, <<>>)
